@@ -212,10 +212,16 @@ class Sim:
                            % (n, in_dt, DT, self.ra, self.ra + 2, [x for x in self.run[n] if x >= t - DT], name))
         # ---- where did the commands go?
         reached = {}
+        times = {}
         for n, s in self.servers.items():
             for c in s.cmdlog[marks[n]:]:
                 for k in c.keys:
                     reached.setdefault(k.decode(), set()).add(n)
+                    times[(c.verb, k)] = times.get((c.verb, k), 0) + 1
+        # every key-addressed command is issued at most once per key and call (whatever the retry state)
+        dup = [(vb, k, n_) for (vb, k), n_ in times.items() if n_ > 1]
+        if dup:
+            self.v("command-issued-twice:%s" % name, "%s sent %r (verb, key, times) in one call" % (name, dup[:3]))
         involved = [key] if name not in ("get_many", "set_many", "delete_many") else allkeys
         for k in involved:
             o = self.owner[k]
@@ -268,7 +274,10 @@ class Sim:
         # ---- service while a server is out: ops whose commands only reached healthy servers must work
         if exc is None and name == "setget":
             dest = reached.get(key, set())
-            if dest and dest <= healthy and len(dest) == 1 and not contacted_failing:
+            # demanded only when both commands actually reached the same healthy server (an eviction decided by the
+            # set itself may legitimately send the following get elsewhere)
+            verbs = sorted(c.verb for n in dest for c in self.servers[n].cmdlog[marks[n]:] if key.encode() in c.keys)
+            if dest and dest <= healthy and len(dest) == 1 and not contacted_failing and verbs == [b"get", b"set"]:
                 if ret != (True, uniq):
                     self.v("rerouted-set-then-get-fails", "set+get of %r on healthy %r returned %r" % (key, sorted(dest), ret))
         if exc is not None and not contacted_failing and rotation and not self.ign:
